@@ -199,6 +199,33 @@ func Check(c Case) (v vcase.Verdict) {
 			v.Label("single_bit_mask")
 		}
 	}
+	// The same Filter on the same Result object whose name was rewritten in place (a caller
+	// that recycles one Result, as the reader does): the verdict follows the new name.
+	if alt := altName(c.Name); alt != c.Name && len(alt) == len(c.Name) && fixedOK == (c.FixedKey == "" || fixedOK) {
+		c2 := c
+		c2.Name = alt
+		_, ref2 := build(c2)
+		f.Match(res) // (the last thing the filter saw is this very object)
+		res.Name = append(res.Name[:0], alt...)
+		fixedOK2 := true
+		if c.FixedKey != "" {
+			val := refexpr.Extract(ref2, c.FixedKey)
+			fixedOK2 = false
+			for _, x := range c.FixedVals {
+				if x == val {
+					fixedOK2 = true
+				}
+			}
+		}
+		m2, _ := f.Match(res)
+		for i := 0; i < n; i++ {
+			if w := fixedOK2 && refexpr.Eval(c.Tree, ref2, i); m2.Test(i) != w {
+				v.Failf("filter %q: after the result's name was rewritten in place from %q to %q measurement %d matched=%v, reference %v", c.Text, c.Name, alt, i, m2.Test(i), w)
+				return
+			}
+		}
+		v.Label("name_rewritten_in_place")
+	}
 	if st.Nots > 0 && st.UnitLeaves > 0 {
 		v.Label("not_with_mask")
 	}
@@ -217,6 +244,30 @@ func Check(c Case) (v vcase.Verdict) {
 	}
 	v.NonTrivial = st.Ops >= 2 && st.UnitLeaves > 0 && st.WholeLeaves > 0 && mixed
 	return
+}
+
+// altName returns a name of the same length with the sub-name parts in another
+// order, or with a value spelt backwards (the name itself when neither applies).
+func altName(name string) string {
+	body, tail := name, ""
+	if i := strings.LastIndexByte(name, '-'); i > strings.LastIndexByte(name, '/') && i >= 0 {
+		body, tail = name[:i], name[i:]
+	}
+	parts := strings.Split(body, "/")
+	if len(parts) >= 3 && parts[1] != parts[2] {
+		parts[1], parts[2] = parts[2], parts[1]
+		return strings.Join(parts, "/") + tail
+	}
+	if len(parts) == 2 {
+		if eq := strings.IndexByte(parts[1], '='); eq >= 0 && eq+2 < len(parts[1]) {
+			val := []byte(parts[1][eq+1:])
+			for i, j := 0, len(val)-1; i < j; i, j = i+1, j-1 {
+				val[i], val[j] = val[j], val[i]
+			}
+			return parts[0] + "/" + parts[1][:eq+1] + string(val) + tail
+		}
+	}
+	return name
 }
 
 func cfgEq(a, b []benchfmt.Config) bool {
